@@ -116,6 +116,15 @@ CHECKS = {
     design_ref="DESIGN.md section 4 / C09",
     technique="Coq proof over a fuelled model of pest's Pratt loop + operator table regenerated from source by a translator + structural correspondence on parsed texts",
     note="Trusted: Coq kernel + vm_compute; tools/srcparams.py; harness text printer. pest's PEG front end (tokenisation, whitespace) is not modelled."),
+ "C17": dict(
+    category="proof",
+    text="PARTIAL proof. to_lp_format is modelled at token level (lp_terms, lp_num, lp_bound, sections, generated row names) and an independently written reader of the CPLEX-LP subset lives in Coq. "
+         "Proved (axiom-free): the reader inverts the writer on every linear expression / row body (signs, omitted unit coefficients and zero terms, all-zero rows, relation); whole-file round trip shown on an instance, "
+         "the general whole-file theorem is the stated target. Tie on every run: the real LP text is tokenised and must equal the model writer's tokens, and the reader run on the REAL text must return the model's denotation "
+         "(sense, objective terms and constant, rows with names/relation/rhs, bounds incl. free and infinite, Binary, General); generated row names must be unique. Genuine defect F11 repaired.",
+    design_ref="DESIGN.md section 4 / C17",
+    technique="Coq model of writer + independent reader with round-trip lemmas; per-run token correspondence and reader-on-real-text check",
+    note="Trusted: Coq kernel + vm_compute; Python tokeniser (whitespace split, trailing colon split, decimal text -> f64 -> exact rational)."),
  "C10": dict(
     category="proof",
     text="Coq theorems for all expressions and all real assignments: Exp::simplify (typed semantics) and Exp::flatten preserve the value; "
